@@ -171,7 +171,15 @@ def flatten_segs(I: Interp, segs, tree=None, depth=0, max_depth=12):
             else:
                 out.append(s)
         elif s[0] == "loop":
-            out.append(("loop", s[1], flatten_segs(I, s[2], tree, depth + 1, max_depth)))
+            body = flatten_segs(I, s[2], tree, depth + 1, max_depth)
+            info = I.loops.get(s[1], {})
+            if body == [("e", ("elem", s[1]))] and not info.get("conds") and info.get("iter") is not None and info.get("kind") in ("comp", "for") \
+                    and "break_env" not in info and depth < max_depth:
+                # every element of the iterable, as it is, in order: the iterable's own elements (``[x for x in xs]``,
+                # ``for x in xs: yield x``)
+                out.extend(flatten_segs(I, [("s", info["iter"])], tree, depth + 1, max_depth))
+            else:
+                out.append(("loop", s[1], body))
         elif s[0] == "if":
             out.append(("if", s[1], flatten_segs(I, s[2], tree, depth + 1, max_depth), flatten_segs(I, s[3], tree, depth + 1, max_depth)))
         else:
